@@ -7,7 +7,8 @@ from framework import REPO, ROOT
 TIE = ["Nsq.Tie.AdminGate", "Nsq.Tie.AdminFanout", "Nsq.Tie.AdminProg", "Nsq.Tie.AdminNotify"]
 PROPS = ["Nsq.Props.C17"]
 STREAMS = [("gate_identity", "^TestVerifE7Identity$"), ("gate_fanout", "^TestVerifE7Fanout$"),
-           ("gate_config", "^TestVerifE7Config$"), ("gate_prog", "^TestVerifE7Prog$")]
+           ("gate_config", "^TestVerifE7Config$"), ("gate_prog", "^TestVerifE7Prog$"), ("gate_strfn", "^TestVerifE7StrFns$"),
+           ("gate_proxy", "^TestVerifE7Proxy$")]
 
 
 def unhex(s):
@@ -38,7 +39,13 @@ def parse_op(op):
     return f
 
 
+TOKEN = set("!#$%&'*+-.^_`|~0123456789abcdefghijklmnopqrstuvwxyzABCDEFGHIJKLMNOPQRSTUVWXYZ")
+
+
 def canon(name):
+    """net/textproto CanonicalMIMEHeaderKey as documented: a name with a space or a non-token byte is left alone."""
+    if any(ch not in TOKEN for ch in name):
+        return name
     out, up = [], True
     for ch in name:
         out.append(ch.upper() if up else ch.lower())
@@ -60,10 +67,103 @@ def is_admin(f):
     return val in f["userlist"]
 
 
+NAME_RE = re.compile(r"^[.a-zA-Z0-9_-]+(#ephemeral)?$")
+
+
+def valid_name(s):
+    return isinstance(s, str) and 1 <= len(s) <= 64 and NAME_RE.match(s) is not None
+
+
+def decode_body(raw):
+    """What `json.NewDecoder(req.Body).Decode(&struct{…string fields…})` makes of a body, read independently of
+    the harness: the first JSON value must be an object (trailing bytes are not looked at), a member whose name
+    matches a field (case-insensitively) must be a string or null. Returns the lower-cased members or None."""
+    import json
+    try:
+        v, _ = json.JSONDecoder().raw_decode(raw.lstrip(" \t\r\n"))
+    except ValueError:
+        return None
+    if not isinstance(v, dict):
+        return None
+    out = {}
+    for k, x in v.items():
+        if k.lower() in ("topic", "channel", "action"):
+            if x is None:
+                continue
+            if not isinstance(x, str):
+                return None
+            out[k.lower()] = x
+    return out
+
+
+def well_formed(f):
+    """Is this state-changing request one the property promises to carry out — by the documented API alone
+    (route shape, body members, name syntax), not by looking at the handler or the model? None = no opinion."""
+    segs, m = f["segs"], f["m"]
+    if "xbody" not in f:
+        return None
+    body = decode_body(unhex(f["xbody"]))
+    if (body is not None) != (f.get("body") == "1"):
+        return None      # python and Go read this body differently: no verdict from this clause
+    if m == "DELETE" and len(segs) in (3, 4) and segs[1] == "topics":
+        return True
+    if body is None:
+        return False
+    if m == "POST" and len(segs) == 2 and segs[1] == "topics":
+        return valid_name(body.get("topic", "")) and (body.get("channel", "") == "" or valid_name(body["channel"]))
+    if m == "POST" and len(segs) in (3, 4) and segs[1] == "topics":
+        return body.get("action", "") in ("pause", "unpause", "empty")
+    if m == "DELETE" and len(segs) == 3 and segs[1] == "nodes":
+        return valid_name(body.get("topic", ""))
+    return None
+
+
+def strfn_oracle(op, impl):
+    """The two library functions against their documentation, in python (no Lean, no Go)."""
+    import urllib.parse
+    _, fn, h = op.split()
+    s, got = unhex(h), unhex(impl)
+    want = canon(s) if fn == "canon" else urllib.parse.quote_plus(s, safe="")
+    if got != want:
+        return "%s(%r) = %r, documented behaviour gives %r" % (
+            "CanonicalMIMEHeaderKey" if fn == "canon" else "url.QueryEscape", s, got, want)
+    return None
+
+
+def proxy_oracle(op, impl):
+    """GET /render (only with --proxy-graphite): a read-only pass-through to graphite — available to everybody, GET
+    only, never a request to an nsqd / nsqlookupd, the query handed on unchanged."""
+    f = dict(t.partition("=")[::2] for t in op.split()[1:])
+    a = impl.split()
+    status, fw, nsq = int(a[0]), a[1], a[3]
+    where = "%s /render?%s (proxy-graphite %s, identity %s)" % (f["m"], unhex(f["q"]), "on" if f["on"] == "1" else "off", f["who"])
+    if nsq != "nsq=0":
+        return where + " caused %s request(s) to nsqd / nsqlookupd" % nsq[4:]
+    if f["on"] != "1" or f["m"] != "GET":
+        if fw != "-":
+            return where + " was forwarded to graphite: " + fw
+        if status < 400:
+            return where + " answered %d" % status
+        return None
+    if status == 403:
+        return where + " answered 403: a read-only route"
+    if f["g"] != "down":
+        want = "GET:/render" + ("?" + unhex(f["q"]) if unhex(f["q"]) else "")
+        if fw != want:
+            return where + ": graphite received %s, not %s" % (fw, want)
+        if status != int(f["g"]):
+            return where + ": graphite answered %s, nsqadmin answered %d" % (f["g"], status)
+    return None
+
+
 def property_fails_on(op, impl):
     """Evaluate C17 on one request and the implementation's own answer. Returns text or None."""
     if op.startswith("fan "):
         return prog_oracle(op, impl)
+    if op.startswith("strfn "):
+        return strfn_oracle(op, impl)
+    if op.startswith("proxy "):
+        return proxy_oracle(op, impl)
     f = parse_op(op)
     a = impl.split()
     if len(a) != 4:
@@ -81,6 +181,13 @@ def property_fails_on(op, impl):
         else:
             if status == 403:
                 return "%s /%s with an admin identity (or no admin list) answered 403" % (m, "/".join(segs))
+            wf = well_formed(f)
+            if wf is True and status not in (200, 502):
+                return ("%s /%s with an admin identity and a well-formed request (body %r) answered %d: the action was "
+                        "not carried out (recorded upstream requests: %s)" % (m, "/".join(segs), unhex(f.get("xbody", "-")), status, reqs))
+            if wf is False and (status in (200, 502) or reqs != "-"):
+                return ("%s /%s with a malformed request (body %r) answered %d and reached an upstream: %s" % (
+                    m, "/".join(segs), unhex(f.get("xbody", "-")), status, reqs))
             if status in (200, 502):
                 bad = fanout_missing(f, reqs, status)
                 if bad:
@@ -88,6 +195,11 @@ def property_fails_on(op, impl):
         bad = notify_oracle(f, status, notes)
         if bad:
             return bad
+    if m not in ("GET", "POST", "PUT", "DELETE") and (reqs != "-" or notes != "-" or cfgw != "0"):
+        return "%s /%s (a method no route is registered under) had an effect: upstream %s, notifications %s, config written %s" % (
+            m, "/".join(segs), reqs, notes, cfgw)
+    if under_api and m != "GET" and not is_admin(f) and (reqs != "-" or notes != "-"):
+        return "%s /%s without an admin identity reached an upstream (status %d): %s %s" % (m, "/".join(segs), status, reqs, notes)
     if segs and segs[0] == "config" and f.get("cidr") == "1":
         out = f.get("innet") == "0" or f.get("lfail", "-") != "-" and "6e65742e53706c6974486f7374506f7274" in f["lfail"] \
             or "6970203d3d206e696c" in f.get("other", "")
@@ -95,8 +207,41 @@ def property_fails_on(op, impl):
             if not (400 <= status < 500) or cfgw != "0":
                 return "%s /config/%s from outside the allowed network answered %d (config written: %s)" % (
                     m, segs[-1], status, cfgw)
+    if reqs.startswith("isadmin="):
+        # the page's IS_ADMIN flag is the admin check, nothing else (it only hides controls; the API checks again)
+        if reqs != "isadmin=" + ("true" if is_admin(f) else "false"):
+            return "GET /%s renders IS_ADMIN = %s for a request that %s an admin identity" % (
+                "/".join(segs), reqs[8:], "carries" if is_admin(f) else "does not carry")
     if m == "GET" and under_api and status == 403:
         return "read-only view /%s answered 403" % "/".join(segs)
+    if m == "GET" and not (segs and segs[0] == "config") and ("P:" in reqs or notes != "-" or cfgw != "0"):
+        return ("GET /%s changed state without any admin check: upstream requests %s, notifications %s, config written %s"
+                % ("/".join(segs), reqs, notes, cfgw))
+    return None
+
+
+def qs_oracle(where, recs, topic, channel, node_addr_ok=True):
+    """Every command nsqadmin sent names exactly the topic / channel of the request: its query string, decoded by
+    the rules of application/x-www-form-urlencoded (python's urllib, not Go's), gives them back — whatever
+    characters the unvalidated path parameters contain (audit C17)."""
+    import urllib.parse
+    for r in recs:
+        if not r.startswith("P:") or "?" not in r:
+            continue
+        path, _, qs = r[2:].partition("?")
+        try:
+            q = urllib.parse.parse_qs(qs, keep_blank_values=True, strict_parsing=True, errors="strict")
+        except ValueError:
+            return "%s: command %s has a query string that does not parse" % (where, r)
+        allowed = {"topic", "channel", "node"}
+        if set(q) - allowed or any(len(v) != 1 for v in q.values()):
+            return "%s: command %s carries unexpected or repeated arguments %s" % (where, r, sorted(q))
+        if q.get("topic", [None])[0] != topic:
+            return "%s: command %s names topic %r, the request was about %r" % (where, r, q.get("topic", [None])[0], topic)
+        if "channel" in q and q["channel"][0] != channel:
+            return "%s: command %s names channel %r, the request was about %r" % (where, r, q["channel"][0], channel)
+        if "/channel/" in path and "channel" not in q:
+            return "%s: channel command %s names no channel" % (where, r)
     return None
 
 
@@ -143,12 +288,27 @@ def fanout_missing(f, reqs, status):
     na = [] if f.get("na", "-") == "-" else f["na"].split(",")
     segs = f["segs"]
     where = "%s /%s" % (f["m"], "/".join(segs))
+    rep = lambda n: nd[n][4] if n in nd and len(nd[n]) > 4 else n   # the address the node's /info claims
     posts = [g for g in got if g.startswith("P:")]
+    if f["m"] == "POST" and len(segs) == 2:
+        rt, rc = unhex(f.get("btopic", "-")), unhex(f.get("bchan", "-"))
+    elif len(segs) >= 3 and segs[1] == "nodes":
+        rt, rc = unhex(f.get("btopic", "-")), ""
+    else:
+        rt, rc = (segs[2] if len(segs) > 2 else ""), (segs[3] if len(segs) > 3 else "")
+    bad = qs_oracle(where, posts, rt, rc)
+    if bad:
+        return bad
     lk_up = [l for l in lk if l[1] == "1"]
     via_lookupd = set(x for l in lk_up if l[2] != "-" for x in l[2].split("+"))
     need_lookupd = None       # substring of the command every configured nsqlookupd must have received
     if f["m"] == "POST" and len(segs) == 2:            # create topic [+ channel]
         need_lookupd = "/topic/create?"
+        if not lk and status == 200 and not posts:
+            # audit C15: the relevant upstreams of a create are the configured nsqds when there is no nsqlookupd
+            return ("%s with an admin identity in direct-nsqd mode (no nsqlookupd configured; nsqds %s) answered 200%s, "
+                    "but no request was sent to anybody: the topic was created nowhere" % (
+                        where, ",".join(na) or "-", " and announced it" if f.get("notify") == "1" else ""))
         if unhex(f.get("bchan", "-")) == "":
             lookup_ok, prods = True, set()
         else:
@@ -157,13 +317,13 @@ def fanout_missing(f, reqs, status):
         need_lookupd = "/topic/tombstone?"
         node = segs[2]
         lookup_ok = node in nd and nd[node][1] == "1"
-        prods = {node} if lookup_ok else set()
+        prods = {rep(node)} if lookup_ok else set()
     else:                                              # delete / pause / unpause / empty
         if lk:
             lookup_ok, prods = bool(lk_up), via_lookupd
         else:
             lookup_ok = any(n in nd and nd[n][1] == "1" for n in na)
-            prods = set(n for n in na if n in nd and nd[n][1] == "1" and nd[n][2] == "1")
+            prods = set(rep(n) for n in na if n in nd and nd[n][1] == "1" and nd[n][2] == "1")
         if f["m"] == "DELETE":
             need_lookupd = "/delete?"
     prods = set(p for p in prods if p in nd)           # an address nobody listens on cannot record anything
@@ -218,18 +378,35 @@ def prog_oracle(op, impl):
             return (sym in lkd and lkd[sym][1] == "0") or (sym in nd and nd[sym][1] == "0")
         return (sym in lkd and lkd[sym][3] == "0") or (sym in nd and nd[sym][3] == "0")
     nfail = sum(1 for r in recs if failed(r))
-    dead_possible = any("X0" in l[2].split("+") for l in lk if l[2] != "-") or f.get("node") == "X0"
-    if len(set(recs)) != len(recs):
-        dup = sorted(set(r for r in recs if recs.count(r) > 1))
-        return "%s: contacted more than once: %s (recorded: %s)" % (where, ", ".join(dup), a[2])
+    rep = lambda n: nd[n][4] if n in nd and len(nd[n]) > 4 else n   # the address the node's /info claims
+    na0 = [] if f.get("na", "-") == "-" else f["na"].split(",")
+    # requests that fail without being recorded (nobody listens on X0): at most one per command through a
+    # nsqlookupd report, one per configured nsqd whose /info claims X0, one for a tombstone of / through X0
+    dead = (1 if any("X0" in l[2].split("+") for l in lk if l[2] != "-") else 0) + \
+        (sum(1 for n in na0 if rep(n) == "X0") if not lk else 0) + \
+        (1 if f.get("node") == "X0" or (f.get("node", "-") != "-" and rep(f["node"]) == "X0") else 0)
+    dead_possible = dead > 0
+    # the same command twice at one address is what the code does when two configured nsqds claim that address
+    mult = {}
+    if not lk:
+        for n in na0:
+            if n in nd and nd[n][1] == "1" and nd[n][2] == "1":
+                mult[rep(n)] = mult.get(rep(n), 0) + 1
+    for r in set(recs):
+        allowed = mult.get(r[2:].split("/", 1)[0], 1) if r.startswith("P:") else 1
+        if recs.count(r) > max(1, allowed):
+            return "%s: contacted more than once: %s x%d (recorded: %s)" % (where, r, recs.count(r), a[2])
     if res == "none" and nfail > 0:
         return "%s returned nil although %d request(s) failed: %s" % (where, nfail, ", ".join(r for r in recs if failed(r)))
-    if res == "partial" and (errs < nfail or errs > nfail + (1 if dead_possible else 0)):
+    if res == "partial" and (errs < nfail or errs > nfail + dead):
         return "%s reports %d error(s) but %d recorded request(s) failed: %s" % (
             where, errs, nfail, ", ".join(r for r in recs if failed(r)))
     if res == "partial" and errs == 0:
         return "%s returned an empty error list" % where
     posts = [r for r in recs if r.startswith("P:")]
+    bad = qs_oracle(where, posts, unhex(f.get("topic", "-")), unhex(f.get("channel", "-")))
+    if bad:
+        return bad
     if kind in ("createTopic", "createChannel", "tombstone") or (kind in LOOKUPD_CMDS and res != "full"):
         for c in LOOKUPD_CMDS[kind]:
             for l in lk:
@@ -240,7 +417,7 @@ def prog_oracle(op, impl):
             prods = set(x for l in lk if l[1] == "1" and l[2] != "-" for x in l[2].split("+"))
         else:
             na = [] if f.get("na", "-") == "-" else f["na"].split(",")
-            prods = set(n for n in na if n in nd and nd[n][1] == "1" and nd[n][2] == "1")
+            prods = set(rep(n) for n in na if n in nd and nd[n][1] == "1" and nd[n][2] == "1")
         for p_ in sorted(prods):
             if p_ in nd and not any(r.startswith("P:%s%s?" % (p_, NSQD_CMD[kind])) for r in posts):
                 return "%s: nsqd %s, reported as a producer, never received %s (recorded: %s)" % (
@@ -293,24 +470,33 @@ def run(ctx):
         "translator tools/go2lean (kinds adminroutes, adminpred): renders the route registrations of "
         "NewHTTPServer and the control-flow skeleton of every handler (calls to receiver methods inlined, "
         "unknown statements kept as Skel.unknown), and isAuthorizedAdminRequest into a Lean Bool function",
-        "net/http and httprouter: routing, 404/405, header canonicalisation and trimming on the wire "
-        "(the model takes the header map as the handler receives it)",
+        "net/http and httprouter: routing, 404/405/OPTIONS, trimming of header values on the wire "
+        "(the model takes the header map as the handler receives it; Header.Get's canonicalisation is modelled and compared)",
+        "translator kind upstreamwrites: which ClusterInfo / http_api.Client method can send a non-GET request (the logger field "
+        "`c.log` is declared harmless in specs/e7_admin.json)",
         "net.ParseCIDR / net.ParseIP / IPNet.Contains, protocol.IsValidTopicName, encoding/json of the request "
         "body, lg.ParseLogLevel: their outcomes are inputs of the model (computed by the harness with the same calls)",
         "correspondence harness harness/e7/gate_test.go (recording stub nsqlookupd/nsqd upstreams, symbolic addresses)",
     ]
     ctx.assumptions += [
-        "an upstream stub either answers every request or fails every request (model AdminFanout.World)",
+        "an upstream stub answers or fails all its GETs and, independently, all its POSTs; an nsqd stub's /info may claim "
+        "another stub's address or a dead one (model AdminFanout.World)",
+        "admin_carried_out: 'well-formed request' = body decodes, topic/channel names pass IsValidTopicName/IsValidChannelName, "
+        "action in {pause, unpause, empty} (hypotheses WellFormed / validOf; the python oracle decides the same from the raw body)",
+        "the handler -> ClusterInfo -> requests composition is made in the driver, not in a Lean theorem",
         "request-level fan-out (which URLs each ClusterInfo action sends) is a hand-written model tied by "
         "correspondence and by a pinned fact table of the call/URI statements of data.go (Tie.AdminFanout); "
         "the handler-level statements are over regenerated skeletons",
     ]
     ctx.rule = ("correspondence: every registered route x 16 identities (absent, empty, non-admin, admin, second admin, "
                 "case/prefix/suffix/whitespace/list look-alikes, lower-case header name, other header, two values) x "
-                "admin list {[],[a],[a,b]} x ACL header name {canonical, lower-case, custom}; every mutating action x "
-                "12 upstream up/down worlds (lookupd and direct-nsqd mode) x ~10 bodies; /config GET/PUT x 9 CIDRs x "
-                "62+ client addresses; a case is distinct by its op line and non-trivial when it is a mutating or "
-                "/config request; oracle: property_fails_on evaluates C17 on the implementation's own answer")
+                "admin list {[],[a],[a,b]} x ACL header name {canonical, lower-case, custom}, 14 smuggling channels, off-the-wire "
+                "look-alikes, non-token ACL header names, every registered path x 7 methods x {admin, other}, every mutating route "
+                "x 16 identities in direct-nsqd mode; every mutating action x 24 upstream worlds (up/down, POST-failing, both modes, "
+                "nsqds whose /info claims another address) x ~10 bodies x topics / channels with reserved characters; /config GET/PUT "
+                "x 9 CIDRs x 62+ client addresses; the ClusterInfo methods directly on 22 fixed + N random worlds; the graphite proxy; "
+                "url.QueryEscape / CanonicalMIMEHeaderKey on fixed + random strings; a case is distinct by its op line and "
+                "non-trivial when it is not a plain GET view; oracle: property_fails_on evaluates C17 on the implementation's own answer")
     gen_ok, _ = ctx.gen("e7_admin")
     ctx.gen("e7_fanout")
     ctx.gen("e7_prog")
@@ -348,7 +534,7 @@ def run(ctx):
                 ctx.log("corpus regression: `%s`\n  recorded=%s\n     model=%s" % (o[:300], want, got))
                 corr_broken.append("corpus C17/%s line" % os.path.basename(cp))
         ctx.corr["corpus_lines"] = ctx.corr.get("corpus_lines", 0) + len(cops)
-    binp = ctx.go_test_binary("nsqadmin", ["e7/gate_test.go", "e7/prog_test.go"], "e7gate")
+    binp = ctx.go_test_binary("nsqadmin", ["e7/gate_test.go", "e7/prog_test.go", "e7/strfn_test.go", "e7/proxy_test.go"], "e7gate")
     if not binp:
         ctx.broken_ties.append("harness e7/gate_test.go does not compile against the current tree")
         corr_broken.append("harness build")
@@ -389,7 +575,7 @@ def run(ctx):
                         ctx.count_case(o)
                         bad = property_fails_on(o, i)
                         if bad:
-                            ctx.violation(key_of(o), bad, "op: %s\nimpl: %s\n" % (o, i))
+                            ctx.violation(key_of(o, bad), bad, "op: %s\nimpl: %s\n" % (o, i))
                 continue
             for o, i in zip(ops, impl):
                 ctx.count_case(o, nontrivial=o.startswith("fan ") or (" m=GET " not in o) or " p=636f6e666967," in o)
@@ -399,7 +585,26 @@ def run(ctx):
             for idx, (o, i) in enumerate(zip(ops, impl)):
                 bad = property_fails_on(o, i) or cidr_oracle(o, i)
                 if bad:
-                    ctx.violation(key_of(o), bad, "request: %s\nop: %s\nimpl: %s\n" % (describe_op(o), o, i))
+                    ctx.violation(key_of(o, bad), bad, "request: %s\nop: %s\nimpl: %s\n" % (describe_op(o), o, i))
+            # read-only views stay available *whoever asks*: the same GET view against the same upstreams must be
+            # answered alike for every identity / admin list / ACL header name of the stream
+            seen_view = {}
+            for o, i in zip(ops, impl):
+                if not o.startswith("gate ") or " m=GET " not in o:
+                    continue
+                toks = o.split()
+                ident = [t for t in toks if t.split("=")[0] in ("users", "acl", "hdrs")]
+                rest = " ".join(t for t in toks if t.split("=")[0] not in ("users", "acl", "hdrs"))
+                segs0 = parse_op(o)["segs"]
+                if segs0 and segs0[0] == "config":
+                    continue
+                i = re.sub(r"isadmin=(true|false)", "isadmin=?", i)   # the page flag is *meant* to follow the identity
+                if rest in seen_view and seen_view[rest][0] != i:
+                    ctx.violation("view-identity:/" + "/".join(pattern_of(segs0)),
+                                  "GET /%s is answered %r for identity [%s] and %r for identity [%s]: a read-only view depends "
+                                  "on who asks" % ("/".join(segs0), seen_view[rest][0], " ".join(seen_view[rest][1]), i, " ".join(ident)),
+                                  "op: %s\nimpl: %s\nother identity: %s\nimpl: %s\n" % (o, i, " ".join(seen_view[rest][1]), seen_view[rest][0]))
+                seen_view.setdefault(rest, (i, ident))
             diffs = ctx.diff_lines(impl, model, name)
             for idx, a, b in diffs:
                 ctx.log("model/impl disagree on `%s`:\n   impl=%s\n  model=%s" % (ops[idx][:400], a, b))
@@ -425,15 +630,25 @@ def run(ctx):
                                  "that was answered other than 403 or reached an upstream" % ctx.evaluations)
 
 
-def key_of(op):
+def key_of(op, bad=""):
     """Finding key: the route shape of a gate request, the method of a direct ClusterInfo call."""
+    if bad and "in direct-nsqd mode" in bad and "created nowhere" in bad:
+        return "fanout:create-direct-mode"
     if op.startswith("fan "):
         return "fanout:" + dict(t.partition("=")[::2] for t in op.split()[1:]).get("kind", "?")
+    if op.startswith("strfn "):
+        return "strfn:" + op.split()[1]
+    if op.startswith("proxy "):
+        return "proxy:" + op.split()[2]
     f = parse_op(op)
     return "gate:%s:/%s" % (f["m"], "/".join(pattern_of(f["segs"])))
 
 
 def describe_op(op):
+    if op.startswith("strfn "):
+        return "%s(%r)" % (op.split()[1], unhex(op.split()[2]))
+    if op.startswith("proxy "):
+        return op
     if op.startswith("fan "):
         f = dict(t.partition("=")[::2] for t in op.split()[1:])
         return "ClusterInfo %s topic=%s channel=%s node=%s, stubs: lookupds %s, configured nsqds %s, nsqds %s" % (
